@@ -2,7 +2,7 @@
 /repo/src/ada.cpp (so each table is what the shipped compiler computes)."""
 import os, re
 from . import ast as A
-from .common import run, sha, Undecided, ensure_dir
+from .common import REPO, run, sha, Undecided, ensure_dir
 from .ctypes_map import map_type
 
 # name used in the code -> qualified C++ expression (the translator knows only unqualified names)
@@ -87,7 +87,7 @@ def generate(cfg, globals_needed, enums_needed, src=None, extra_cpp=''):
     outp = os.path.join(d, 'tables_%s.h' % key)
     if os.path.exists(outp):
         return open(outp).read()
-    lines = ['#include "%s"' % (src or '/repo/src/ada.cpp'), PRELUDE, 'int main() {']
+    lines = ['#include "%s"' % (src or REPO + '/src/ada.cpp'), PRELUDE, 'int main() {']
     for name, q in sorted(globals_needed):
         if q == '@default':
             lines.append(DEFAULTS[name])
